@@ -3,6 +3,7 @@ CONSTANTS
   Files <- MCFiles
   Barrier = TRUE
   SortList = FALSE
+  OpenInside = TRUE
 INVARIANT MatchesRule
 INVARIANT ExitZero
 INVARIANT JunkInvariant
